@@ -332,3 +332,221 @@ func recompileSourceRule(c *Ctx, rule string) {
 	}
 	c.Floor(rule, n, 2)
 }
+
+// scannerStatelessRule: the lexer keeps nothing between tokens but its reader.
+func scannerStatelessRule(c *Ctx, rule string) {
+	p := c.P
+	c.Rule(rule, "no method of Scanner stores into a field of the Scanner or into a map held in one: the token and literal returned for a piece of text depend on that text (through the reader) alone, not on which identifiers were scanned before — an intern table keyed by the lower-cased name hands `CPU` back as the earlier `cpu`")
+	n := 0
+	for _, fn := range p.SrcFuncs() {
+		o, ok := fn.Object().(*types.Func)
+		if !ok || recvTypeName(o) != "Scanner" || len(fn.Params) == 0 {
+			continue
+		}
+		n++
+		key := ssaFuncName(fn)
+		recv := fn.Params[0]
+		bad := token.NoPos
+		what := ""
+		onRecv := func(v ssa.Value) (string, bool) {
+			fa, ok := v.(*ssa.FieldAddr)
+			if !ok || fa.X != ssa.Value(recv) {
+				return "", false
+			}
+			return fieldName(fa), true
+		}
+		var visit func(f *ssa.Function)
+		visit = func(f *ssa.Function) {
+			for _, b := range f.Blocks {
+				for _, in := range b.Instrs {
+					switch x := in.(type) {
+					case *ssa.Store:
+						if f2, ok := onRecv(x.Addr); ok && bad == token.NoPos {
+							bad, what = x.Pos(), "stores into Scanner."+f2
+						}
+					case *ssa.MapUpdate:
+						if u, ok := x.Map.(*ssa.UnOp); ok {
+							if f2, ok := onRecv(u.X); ok && bad == token.NoPos {
+								bad, what = x.Pos(), "writes into the map Scanner."+f2
+							}
+						}
+					}
+				}
+			}
+		}
+		visit(fn)
+		if bad != token.NoPos {
+			c.Bad(rule, key, bad, what+": what is scanned later depends on what was scanned before")
+		} else {
+			c.OK(rule, key, fn.Pos(), "no store into the Scanner")
+		}
+	}
+	c.Floor(rule, n, 8)
+}
+
+// subqueryFlagC01: subqueries nest.
+func subqueryFlagC01(c *Ctx) {
+	p := c.P
+	c.Rule("C01.subquerynest", "parseSelectStatement passes the constant true as parseSources' `subqueries allowed` flag: a SELECT read as a subquery may itself read from a subquery (any depth); a flag computed from the kind of statement being parsed rejects `FROM (SELECT … FROM (SELECT …))`")
+	f := p.SSAFunc(p.Method("Parser", "parseSelectStatement"))
+	if f == nil {
+		c.Unk("C01.subquerynest", "(*Parser).parseSelectStatement", 0, "anchor not found")
+		return
+	}
+	n := 0
+	for _, b := range f.Blocks {
+		for _, in := range b.Instrs {
+			call, ok := in.(*ssa.Call)
+			if !ok || call.Call.StaticCallee() == nil || call.Call.StaticCallee().Name() != "parseSources" || len(call.Call.Args) < 2 {
+				continue
+			}
+			n++
+			key := fmt.Sprintf("(*Parser).parseSelectStatement: parseSources #%d", n)
+			if k, ok := call.Call.Args[1].(*ssa.Const); ok && k.Value != nil && constant.BoolVal(k.Value) {
+				c.OK("C01.subquerynest", key, call.Pos(), "true")
+			} else if ok {
+				c.Bad("C01.subquerynest", key, call.Pos(), "subqueries are switched off for every SELECT")
+			} else {
+				c.Bad("C01.subquerynest", key, call.Pos(), "whether a subquery may appear as a source is computed from the parsing context: nested subqueries are rejected")
+			}
+		}
+	}
+	c.Floor("C01.subquerynest", n, 1)
+}
+
+// keywordLookupRule: a word that is a keyword is that keyword whatever follows it.
+func keywordLookupRule(c *Ctx, rule string) {
+	p := c.P
+	c.Rule(rule, "in scanIdent nothing is read from the input after the keyword table was consulted: whether a word is a keyword is decided by the word alone. A look at the next character (`(` makes it a function name) turns `a AND(b OR c)` into the identifier AND followed by a group, and the expression silently ends at `a`")
+	f := p.SSAFunc(p.Method("Scanner", "scanIdent"))
+	read := p.SSAFunc(p.Method("reader", "read"))
+	if f == nil || read == nil {
+		c.Unk(rule, "(*Scanner).scanIdent", 0, "anchor not found")
+		return
+	}
+	n := 0
+	for _, b := range f.Blocks {
+		for i, in := range b.Instrs {
+			call, ok := in.(*ssa.Call)
+			if !ok || call.Call.StaticCallee() == nil || call.Call.StaticCallee().Name() != "Lookup" {
+				continue
+			}
+			n++
+			key := fmt.Sprintf("(*Scanner).scanIdent: after Lookup #%d", n)
+			bad := token.NoPos
+			seen := map[*ssa.BasicBlock]bool{}
+			var walk func(x *ssa.BasicBlock, from int)
+			walk = func(x *ssa.BasicBlock, from int) {
+				for j := from; j < len(x.Instrs); j++ {
+					if c2, ok := x.Instrs[j].(*ssa.Call); ok && c2.Call.StaticCallee() != nil {
+						cal := c2.Call.StaticCallee()
+						if cal == read || (cal.Pkg == f.Pkg && cal.Signature.Recv() != nil && (p.TypeStr(cal.Signature.Recv().Type()) == "*reader" || p.TypeStr(cal.Signature.Recv().Type()) == "*Scanner")) {
+							if bad == token.NoPos {
+								bad = c2.Pos()
+							}
+						}
+					}
+				}
+				for _, s := range x.Succs {
+					if !seen[s] {
+						seen[s] = true
+						walk(s, 0)
+					}
+				}
+			}
+			walk(b, i+1)
+			if bad != token.NoPos {
+				c.Bad(rule, key, bad, "the reader is used again after the keyword lookup: the token depends on what follows the word")
+			} else {
+				c.OK(rule, key, call.Pos(), "the looked-up token is returned without another look at the input")
+			}
+		}
+	}
+	c.Floor(rule, n, 1)
+}
+
+// appendOnlyRule: privilege lists grow by append.
+func appendOnlyRule(c *Ctx, rule, mname string) {
+	p := c.P
+	c.Rule(rule, "no "+mname+" method copies a privilege list into a slice of a length fixed beforehand (builtin copy): the number of privileges a source contributes is not the number of sources — a subquery brings one per measurement it reads — so a destination sized by len(Sources) cuts the list short and the last READs are lost")
+	n := 0
+	for _, fn := range p.SrcFuncs() {
+		if fn.Name() != mname {
+			continue
+		}
+		n++
+		key := ssaFuncName(fn)
+		bad := token.NoPos
+		for _, b := range fn.Blocks {
+			for _, in := range b.Instrs {
+				if call, ok := in.(*ssa.Call); ok {
+					if bi, ok := call.Call.Value.(*ssa.Builtin); ok && bi.Name() == "copy" && len(call.Call.Args) == 2 && p.TypeStr(call.Call.Args[0].Type()) == "ExecutionPrivileges" {
+						bad = call.Pos()
+					}
+				}
+			}
+		}
+		if bad != token.NoPos {
+			c.Bad(rule, key, bad, "copies privileges into a slice whose length was fixed before the list was known")
+		} else {
+			c.OK(rule, key, fn.Pos(), "lists are built by literals and append")
+		}
+	}
+	c.Floor(rule, n, 20)
+}
+
+// callArgsC01: every argument position of a call offers the same alternatives.
+func callArgsC01(c *Ctx) {
+	p := c.P
+	c.Rule("C01.callargs", "in parseCall every argument parsed with ParseExpr was first offered to parseRegex: walking back from each ParseExpr call, a parseRegex call is met before another ParseExpr call or the function entry on every path. An argument position that skips the regex attempt reads `/` as the division operator, and top(value, /host.*/, 3) is rejected")
+	f := p.SSAFunc(p.Method("Parser", "parseCall"))
+	if f == nil {
+		c.Unk("C01.callargs", "(*Parser).parseCall", 0, "anchor not found")
+		return
+	}
+	isCallTo := func(in ssa.Instruction, name string) bool {
+		call, ok := in.(*ssa.Call)
+		return ok && call.Call.StaticCallee() != nil && call.Call.StaticCallee().Name() == name
+	}
+	n := 0
+	for _, b := range f.Blocks {
+		for i, in := range b.Instrs {
+			if !isCallTo(in, "ParseExpr") {
+				continue
+			}
+			n++
+			key := fmt.Sprintf("(*Parser).parseCall: argument parsed by ParseExpr #%d", n)
+			ok := true
+			seen := map[*ssa.BasicBlock]bool{}
+			var back func(x *ssa.BasicBlock, from int)
+			back = func(x *ssa.BasicBlock, from int) {
+				for j := from; j >= 0; j-- {
+					if isCallTo(x.Instrs[j], "parseRegex") {
+						return
+					}
+					if isCallTo(x.Instrs[j], "ParseExpr") {
+						ok = false
+						return
+					}
+				}
+				if len(x.Preds) == 0 {
+					ok = false // reached the entry
+					return
+				}
+				for _, pb := range x.Preds {
+					if !seen[pb] {
+						seen[pb] = true
+						back(pb, len(pb.Instrs)-1)
+					}
+				}
+			}
+			back(b, i-1)
+			if ok {
+				c.OK("C01.callargs", key, in.Pos(), "offered to parseRegex first")
+			} else {
+				c.Bad("C01.callargs", key, in.Pos(), "on some path this argument is parsed as an expression without having been offered to parseRegex")
+			}
+		}
+	}
+	c.Floor("C01.callargs", n, 2)
+}
